@@ -15,8 +15,8 @@ claimed.update({
  "C02": dict(text="Deductive proof of cedar.Authorize against the decision rule of the property (default deny, forbid overrides, erroring policies skipped; reasons and errors as sets with their positions), by loop invariants over an arbitrarily ordered enumeration of the policy collection; PolicySet.IsAuthorized is proved to be Authorize on the set's contents.",
              note="'satisfied' is defined through the compiled BoolEvaler of the policy (link to the AST semantics is C01/C04). Policy ids yielded by a user iterator are assumed distinct. Trusted: Go map range semantics, iterator shape check (iter-canonical).",
              ref="DESIGN.md §6 C02"),
- "C20": dict(text="Deductive proof, per operation, that PolicySet behaves as the id->policy map p.policies (New, Get, Add, Remove, Map, All, IsAuthorized): refinement of a map model for every pre-state, hence for every finite history.",
-             note="Document loading (policyN ids, file names) and marshal order are not yet under contract; the zero PolicySet{} (nil map) is excluded by precondition.",
+ "C20": dict(text="Deductive proof, per operation, that PolicySet behaves as the id->policy map p.policies (New, Get, Add, Remove, Map, All, IsAuthorized, UnmarshalJSON, MarshalCedar's sorted id list): refinement of a map model for every pre-state, hence for every finite history; loading a document (NewPolicySetFromBytes) assigns exactly the ids policy0..policy(n-1) in document order to the parsed list and NewPolicyListFromBytes sets the given file name in every policy's position.",
+             note="The zero PolicySet{} (nil map) is excluded by precondition of Add. Assumed: the decimal rendering of distinct non-negative integers is distinct (policyN injective); PolicyList.UnmarshalCedar returns non-nil policies (trusted: the parser's functional behaviour is not under contract). Copy semantics between a PolicySet and the maps handed out are covered by the C19 frame/no-leak proofs.",
              ref="DESIGN.md §6 C20"),
  "C03": dict(text="Deductive proof that the hierarchy search (entityInOne, entityInSet) returns true exactly when the target is reachable: soundness by an invariant over the visited set, completeness by exhibiting a set closed under the parent relation that contains the start and excludes the target (induction principle of the closure stated as an axiom); mapset operations against their set view.",
              note="reach is axiomatised (reflexive, closed under edges, least: closure-induction axiom). Termination is not proved. Scope forms in the partial evaluator are not yet under contract. EntityGetter.Get is assumed deterministic.",
